@@ -15,6 +15,8 @@ impl TryFrom<&[u8]> for RegisterRequest {
     type Error = TryFromSliceError;
 
     fn try_from(data: &[u8]) -> Result<Self, Self::Error> {
+        // Must be exactly two SHA256's, checked here so that the indexing below cannot panic.
+        let data: &[u8; 64] = data.try_into()?;
         Ok(Self {
             challenge: data[..32].try_into()?,
             application: data[32..].try_into()?,
